@@ -22,14 +22,23 @@ RULE = (
     "<=16 (thorough) x fixed (scales, origin) presets with the same body. Oracle: closed forms of the statement "
     "(centre(i,j), extent = union of pixel squares, point -> (i,j) and i*W+j exact, continuous pixel coordinate = "
     "(i+0.5+f_y, j+0.5+f_x) measured from the top-left corner) and the round trips centre->index->centre, "
-    "scaled->pixels->scaled, pixels->scaled->pixels. geometry1d: lengths 1..14, 1D masks, the 1D closed forms. "
-    "masks: the five constructors with radii that are either a fraction of the frame half-diagonal or anchored "
-    "just inside/outside a chosen pixel's radius (relative offsets 1e-6..0.1), axis ratios in [0.1,1], angles in "
-    "[-360,360], centres in or slightly outside the frame (zero / pixel centre / pixel corner / anywhere), random "
-    "origin and invert; oracle = documented inequality evaluated with a rotation matrix at the closed-form centres "
+    "scaled->pixels->scaled, pixels->scaled->pixels. huge_frames: frames with sides drawn log-uniformly up to "
+    "60000 in three explicit size classes (H*W below 2^24, between 2^24 and 2^31, above 2^31), 3-7 query points "
+    "per case aimed at the first/last pixel, the frame corners, flat indices around 2^24 and 2^31, odd flat "
+    "indices above 2^24 and random pixels, through the point-based conversions only (Geometry2D methods, slim "
+    "utilities, scalar conversions; no HxW array is allocated); oracle = exact Python-int i*W+j and (i,j), "
+    "closed-form centres, with float tolerances and the boundary margin scaled to the float64 resolution at the "
+    "coordinate magnitude. geometry1d: lengths 1..14, 1D masks, the 1D closed forms. "
+    "masks: the five constructors (kinds with more parameters drawn more often) with radii that are either a "
+    "fraction of the frame half-diagonal or anchored on / just inside / just outside a chosen pixel's radius "
+    "(relative offsets 0, 1e-6..0.1), axis ratios in [0.1,1] (exactly 1 three times in ten), angles in "
+    "[-360,360] (exactly 0/90/180/270/360 half of the time), centres in or slightly outside the frame (zero / "
+    "exactly a pixel centre / exactly a pixel corner / anywhere), and explicit exact-equality classes: inner == "
+    "outer radius, outer == second outer radius, all radii equal, elliptical annuli with every combination of "
+    "{angles equal, axis ratios equal, major radii equal}; random origin and invert; oracle = documented inequality evaluated with a rotation matrix at the closed-form centres "
     "measured from the mask origin, pixels within 1e-9 of a threshold skipped and counted. Non-trivial: geometry = "
     "H != W and origin components unequal and some query fraction non-zero; masks = the result has both masked "
-    "and unmasked pixels; 1D = mask mixed or origin non-zero. Distinct = SHA-1 of the canonical case."
+    "and unmasked pixels; 1D = mask mixed or origin non-zero; huge_frames = H*W > 2^24 and H != W. Distinct = SHA-1 of the canonical case."
 )
 ASSUMPTIONS = [
     "coordinates stay O(1e2) (|origin| <= 100, extent <= 130), so rounding error of the closed forms is <= 1e-12 "
@@ -44,6 +53,13 @@ ASSUMPTIONS = [
     "elliptical_radius_from); annulus radii are passed sorted (inner <= outer <= outer_2)",
     "the grid-valued conversions take a Grid2D container whose mask only supplies the output structure; a mask of "
     "the same geometry is used as container, as Mask2D's own callers do",
+    "huge_frames: for |coordinate| up to ~1.5e5 and scales down to 0.05 a pixel fraction of 1e-9 is below float64 "
+    "resolution, so query points keep max(1e-9, 64*eps*Q) pixel from every boundary (Q = coordinate magnitude in "
+    "pixel units, |origin|/scale + H/2 + H), centres are compared with atol max(1e-10, 32*eps*M) (M = coordinate "
+    "magnitude in scaled units), continuous pixel coordinates with atol max(1e-9, 64*eps*Q); index-valued outputs "
+    "stay exact (int64 / integral float64 against Python ints)",
+    "exact-equality classes of the mask parameters are decided with == on the generated floats; a threshold that "
+    "coincides with a pixel's radius is still skipped through the 1e-9 tie band (only that pixel, not the case)",
     "numba is absent, so the @jit kernels run as plain Python (same source, no compilation step)",
 ]
 
@@ -358,13 +374,214 @@ def body_geometry1d(case, ctx):
 
 
 # ---------------------------------------------------------------------------------------------
+# size regime: frames with more than 2**24 / 2**31 pixels through the point-based conversions
+# (cost O(number of points); no H x W array is ever allocated)
+# ---------------------------------------------------------------------------------------------
+EPS = 2.0 ** -52
+SIDE_MAX = 60000
+P24 = 2 ** 24
+P31 = 2 ** 31
+_UNIT = st.one_of(st.sampled_from([0.0, 1.0, -1.0, 0.5, -0.5, 0.999, -0.999]), st.floats(-1.0, 1.0, allow_nan=False))
+_TARGETS = ["first", "last", "last-row-first-col", "first-row-last-col", "near-2^24", "odd-above-2^24", "near-2^31",
+            "above-2^31", "random"]
+
+
+@st.composite
+def _log_int(draw, lo, hi):
+    """Integer in [lo, hi], log-uniform (so every order of magnitude is equally likely)."""
+    lo, hi = int(lo), int(hi)
+    if lo >= hi:
+        return lo
+    u = draw(st.floats(math.log(lo), math.log(hi + 1), allow_nan=False))
+    return max(lo, min(hi, int(math.exp(u))))
+
+
+@st.composite
+def huge_cases(draw):
+    cls = draw(st.sampled_from(["below-2^24", "2^24..2^31", "2^24..2^31", "above-2^31", "above-2^31"]))
+    if cls == "below-2^24":
+        a = draw(_log_int(1, 4000))
+        b = draw(_log_int(1, 4000))
+    elif cls == "2^24..2^31":
+        a = draw(_log_int(300, SIDE_MAX))
+        b = draw(_log_int((P24 + 2) // a + 1, min(SIDE_MAX, (P31 - 1) // a)))
+    else:
+        a = draw(_log_int(P31 // SIDE_MAX + 2, SIDE_MAX))
+        b = draw(_log_int(P31 // a + 2, SIDE_MAX))
+    h, w = (a, b) if draw(st.booleans()) else (b, a)
+    n = h * w
+    scales = draw(_scales())
+    origin = draw(_origins())
+    pts = []
+    for _ in range(draw(st.integers(3, 7))):
+        tag = draw(st.sampled_from(_TARGETS))
+        if tag == "first":
+            t = 0
+        elif tag == "last":
+            t = max(0, n - 1 - draw(st.integers(0, 1)))
+        elif tag == "last-row-first-col":
+            t = (h - 1) * w
+        elif tag == "first-row-last-col":
+            t = w - 1
+        elif tag == "near-2^24" and n > P24 + 4:
+            t = P24 + draw(st.integers(-2, 3))
+        elif tag == "odd-above-2^24" and n > P24 + 4:
+            t = draw(st.integers(P24 // 2, (n - 2) // 2)) * 2 + 1      # float32 holds no odd integer above 2**24
+        elif tag == "near-2^31" and n > P31 + 4:
+            t = P31 + draw(st.integers(-2, 3))
+        elif tag == "above-2^31" and n > P31 + 4:
+            t = draw(st.integers(P31, n - 1))
+        else:
+            tag = "random"
+            t = draw(st.integers(0, n - 1))
+        i, j = divmod(t, w)
+        pts.append({"i": i, "j": j, "uy": float(draw(_UNIT)), "ux": float(draw(_UNIT)), "tag": tag})
+    return {"shape": [h, w], "scales": scales, "origin": origin, "points": pts}
+
+
+def _ints(a):
+    return [int(v) for v in np.asarray(a).ravel()]
+
+
+def body_huge(case, ctx):
+    aa = _aa()
+    h, w = int(case["shape"][0]), int(case["shape"][1])
+    sy, sx = float(case["scales"][0]), float(case["scales"][1])
+    oy, ox = float(case["origin"][0]), float(case["origin"][1])
+    n = h * w                                                       # exact (Python int)
+    pts = case["points"]
+    k = len(pts)
+
+    ctx.label("size:" + ("above-2^31" if n > P31 else ("2^24..2^31" if n > P24 else "below-2^24")))
+    ctx.label("shape:nonsquare" if h != w else "shape:square")
+    ctx.label("scales:aniso" if sy != sx else "scales:iso")
+    for p in pts:
+        ctx.label("target:" + p["tag"])
+        t = p["i"] * w + p["j"]
+        if t > P31:
+            ctx.label("target:flat-index>2^31")
+        elif t > P24:
+            ctx.label("target:flat-index>2^24")
+    ctx.nt(n > P24 and h != w)
+
+    # magnitudes: scaled units (My, Mx) and pixel units (Qy, Qx); every float tolerance is a multiple of the
+    # float64 resolution at that magnitude, and query points keep a margin of max(1e-9, 64 ulp) pixel from the
+    # pixel boundaries (a coordinate at 1e5 cannot be placed to 1e-9 pixel at scale 0.05)
+    My, Mx = abs(oy) + h * sy / 2.0, abs(ox) + w * sx / 2.0
+    Qy, Qx = My / sy + h, Mx / sx + w
+    marg = np.array([max(1e-9, 64.0 * EPS * Qy), max(1e-9, 64.0 * EPS * Qx)])
+    tol_sc = np.array([max(1e-10, 32.0 * EPS * My), max(1e-10, 32.0 * EPS * Mx)])
+    tol_px = np.array([max(1e-9, 64.0 * EPS * Qy), max(1e-9, 64.0 * EPS * Qx)])
+    if marg.max() > 1e-9:
+        ctx.label("margin:ulp-limited")
+    assert marg.max() < 1e-3
+
+    IJ = np.array([[p["i"], p["j"]] for p in pts], dtype=np.int64)
+    assert (IJ >= 0).all() and (IJ[:, 0] < h).all() and (IJ[:, 1] < w).all()
+    FLAT = [int(p["i"]) * w + int(p["j"]) for p in pts]           # exact integer arithmetic
+    U = np.array([[p["uy"], p["ux"]] for p in pts], dtype=float)
+    F = U * (0.5 - marg)                                            # fraction of the pixel (down, right)
+    C = np.empty((k, 2))
+    C[:, 0] = oy + ((h - 1) / 2.0 - IJ[:, 0]) * sy
+    C[:, 1] = ox + (IJ[:, 1] - (w - 1) / 2.0) * sx
+    P = np.empty((k, 2))
+    P[:, 0] = C[:, 0] - F[:, 0] * sy
+    P[:, 1] = C[:, 1] + F[:, 1] * sx
+    CONT = IJ + 0.5 + F
+
+    def axis_close(got, want, key, tol, what):
+        g = np.asarray(got, dtype=float)
+        if g.shape != want.shape:
+            ctx.fail(key + "/shape", "%s: shape %s want %s" % (what, g.shape, want.shape))
+            return
+        ctx.close(g[:, 0], want[:, 0], key + "/y", atol=float(tol[0]), what=what + " [y component]")
+        ctx.close(g[:, 1], want[:, 1], key + "/x", atol=float(tol[1]), what=what + " [x component]")
+
+    def flat_equal(got, key, what):
+        g = np.asarray(got).ravel()
+        ok = len(g) == k and all(float(v) == int(v) for v in g) and _ints(g) == FLAT
+        ctx.check(ok, key, "%s: got %s want %s" % (what, _ints(g) if len(g) <= 8 else "...", FLAT))
+
+    geom = aa.Geometry2D(shape_native=(h, w), pixel_scales=(sy, sx), origin=(oy, ox))
+    gu = aa.util.geometry
+    kw = dict(shape_native=(h, w), pixel_scales=(sy, sx), origin=(oy, ox))
+
+    # extent
+    ext = np.asarray(geom.extent, dtype=float)
+    want_ext = np.array([ox - w * sx / 2.0, ox + w * sx / 2.0, oy - h * sy / 2.0, oy + h * sy / 2.0])
+    ctx.close(ext[:2], want_ext[:2], "huge/extent/x", atol=float(tol_sc[1]), what="Geometry2D.extent x")
+    ctx.close(ext[2:], want_ext[2:], "huge/extent/y", atol=float(tol_sc[0]), what="Geometry2D.extent y")
+
+    # scalar conversions
+    got = np.array([geom.pixel_coordinates_2d_from((float(p[0]), float(p[1]))) for p in P])
+    _axis_equal(ctx, got, IJ, "huge/index/pixel_coordinates_2d_from", "pixel_coordinates_2d_from(point)")
+    got = np.array([geom.pixel_coordinates_2d_from((float(c[0]), float(c[1]))) for c in C])
+    _axis_equal(ctx, got, IJ, "huge/roundtrip/centre-to-index", "pixel_coordinates_2d_from(centre)")
+    got = np.array([geom.scaled_coordinates_2d_from((int(a), int(b))) for a, b in IJ], dtype=float)
+    axis_close(got, C, "huge/centres/scaled_coordinates_2d_from", tol_sc, "scaled_coordinates_2d_from((i,j))")
+
+    # slim utilities on a (k, 2) array
+    got = gu.grid_pixel_centres_2d_slim_from(grid_scaled_2d_slim=P.copy(), **kw)
+    _axis_equal(ctx, got, IJ, "huge/index/util.grid_pixel_centres_2d_slim_from", "grid_pixel_centres_2d_slim_from")
+    flat_equal(gu.grid_pixel_indexes_2d_slim_from(grid_scaled_2d_slim=P.copy(), **kw),
+               "huge/index/util.grid_pixel_indexes_2d_slim_from", "grid_pixel_indexes_2d_slim_from vs i*W+j")
+    got_px = gu.grid_pixels_2d_slim_from(grid_scaled_2d_slim=P.copy(), **kw)
+    axis_close(got_px, CONT, "huge/continuous/util.grid_pixels_2d_slim_from", tol_px, "grid_pixels_2d_slim_from")
+    got = gu.grid_scaled_2d_slim_from(grid_pixels_2d_slim=CONT.copy(), **kw)
+    axis_close(got, P, "huge/continuous/util.grid_scaled_2d_slim_from", 2.0 * tol_sc, "grid_scaled_2d_slim_from")
+    got = gu.grid_scaled_2d_slim_from(grid_pixels_2d_slim=np.asarray(got_px, dtype=float), **kw)
+    axis_close(got, P, "huge/continuous/util.roundtrip-scaled-pixels-scaled", 4.0 * tol_sc,
+               "grid_scaled_2d_slim_from(grid_pixels_2d_slim_from(p))")
+
+    # Geometry2D methods; the container grid (1 x k, unit pixel scale) only supplies the output structure
+    cont = aa.Grid2D.no_mask(values=P.reshape(1, k, 2).copy(), pixel_scales=1.0)
+    cen = geom.grid_pixel_centres_2d_from(grid_scaled_2d=cont)
+    _axis_equal(ctx, np.asarray(cen.slim), IJ, "huge/index/grid_pixel_centres_2d_from", "Geometry2D.grid_pixel_centres_2d_from")
+    idx = geom.grid_pixel_indexes_2d_from(grid_scaled_2d=cont)
+    flat_equal(np.asarray(idx.slim), "huge/index/grid_pixel_indexes_2d_from", "Geometry2D.grid_pixel_indexes_2d_from vs i*W+j")
+    pix = geom.grid_pixels_2d_from(grid_scaled_2d=cont)
+    axis_close(np.asarray(pix.slim), CONT, "huge/continuous/grid_pixels_2d_from", tol_px, "Geometry2D.grid_pixels_2d_from")
+    back = geom.grid_scaled_2d_from(grid_pixels_2d=pix)
+    axis_close(np.asarray(back.slim), P, "huge/continuous/roundtrip-scaled-pixels-scaled", 4.0 * tol_sc,
+               "Geometry2D.grid_scaled_2d_from(grid_pixels_2d_from(p))")
+    again = geom.grid_pixels_2d_from(grid_scaled_2d=back)
+    axis_close(np.asarray(again.slim), CONT, "huge/continuous/roundtrip-pixels-scaled-pixels", 2.0 * tol_px,
+               "Geometry2D.grid_pixels_2d_from(grid_scaled_2d_from(q))")
+
+
+# ---------------------------------------------------------------------------------------------
 # shape-based mask constructors
 # ---------------------------------------------------------------------------------------------
 KINDS = ["circular", "circular_annular", "circular_anti_annular", "elliptical", "elliptical_annular"]
-_ANGLES = st.one_of(st.sampled_from([0.0, 30.0, 45.0, 90.0, -45.0, 135.0, 180.0, -90.0, 270.0, 360.0, -360.0, 60.0]),
-                    st.floats(-360.0, 360.0, allow_nan=False))
-_RATIOS = st.one_of(st.sampled_from([1.0, 0.5, 0.1, 0.8, 0.25]), st.floats(0.1, 1.0, allow_nan=False))
-_DELTAS = [1e-6, 1e-4, 1e-2, 0.03, 0.1]
+# kinds with more parameters (and therefore more exact-equality classes) are drawn more often
+_KIND_WEIGHTS = (["circular"] * 1 + ["circular_annular"] * 2 + ["circular_anti_annular"] * 2
+                 + ["elliptical"] * 3 + ["elliptical_annular"] * 4)
+# angles exactly on an axis are an explicit class (half of all angle draws), 0 / 90 most often
+_AXIS_ANGLES = [0.0, 0.0, 0.0, 90.0, 90.0, 90.0, 180.0, 180.0, 360.0, 360.0, 270.0, -90.0, -180.0, -360.0]
+_OBLIQUE_ANGLES = [45.0, -45.0, 135.0, 225.0, 30.0, 60.0, -30.0, 315.0]
+# relative offset of an anchored radius from the chosen pixel's radius; 0.0 = exactly on it (tie band)
+_DELTAS = [0.0, 0.0, 1e-6, 1e-4, 1e-2, 0.03, 0.1]
+
+
+@st.composite
+def _angle(draw):
+    k = draw(st.integers(0, 9))
+    if k <= 4:
+        return float(draw(st.sampled_from(_AXIS_ANGLES)))
+    if k <= 6:
+        return float(draw(st.sampled_from(_OBLIQUE_ANGLES)))
+    return float(draw(st.floats(-360.0, 360.0, allow_nan=False)))
+
+
+@st.composite
+def _ratio(draw):
+    """Axis ratio in [0.1, 1]; exactly 1 (a circle whatever the angle) three times in ten."""
+    k = draw(st.integers(0, 9))
+    if k <= 2:
+        return 1.0
+    if k <= 5:
+        return float(draw(st.sampled_from([0.5, 0.1, 0.8, 0.25])))
+    return float(draw(st.floats(0.1, 1.0, allow_nan=False)))
 
 
 @st.composite
@@ -382,16 +599,18 @@ def _radius(draw, shape, scales, centre, q=None, angle=None):
     dy, dx = ref.offsets(shape, scales, centre)
     r = ref.circular_radius(dy, dx) if q is None else ref.elliptical_radius(dy, dx, q, angle)
     rp = float(r[i, j])
+    d = draw(st.sampled_from(_DELTAS))
+    if d == 0.0:
+        return rp                      # exactly the pixel's radius (also 0.0 when the centre sits on the pixel)
     if not (rp > 1e-6):
         return float(draw(st.floats(0.0, 1.2)) * diag)
-    d = draw(st.sampled_from(_DELTAS))
     sign = draw(st.sampled_from([-1.0, 1.0]))
     return rp * (1.0 + sign * d)
 
 
 @st.composite
 def mask_cases(draw, kinds=tuple(KINDS)):
-    kind = draw(st.sampled_from(list(kinds)))
+    kind = draw(st.sampled_from([k for k in _KIND_WEIGHTS if k in kinds]))
     shape = draw(_shapes(1, 12))
     h, w = shape
     scales = draw(_scales())
@@ -413,27 +632,91 @@ def mask_cases(draw, kinds=tuple(KINDS)):
         p["radius"] = draw(_radius(shape, scales, centre))
     elif kind == "circular_annular":
         a, b = sorted([draw(_radius(shape, scales, centre)), draw(_radius(shape, scales, centre))])
+        if draw(st.integers(0, 3)) == 0:
+            b = a                                           # inner radius == outer radius exactly
         p["inner_radius"], p["outer_radius"] = a, b
     elif kind == "circular_anti_annular":
         a, b, c = sorted([draw(_radius(shape, scales, centre)) for _ in range(3)])
+        rel = draw(st.integers(0, 6))
+        if rel == 0:
+            b = a                                           # inner == outer
+        elif rel == 1:
+            c = b                                           # outer == outer_2
+        elif rel == 2:
+            b = c = a                                       # all three equal
         p["inner_radius"], p["outer_radius"], p["outer_radius_2"] = a, b, c
     elif kind == "elliptical":
-        p["axis_ratio"] = float(draw(_RATIOS))
-        p["angle"] = float(draw(_ANGLES))
+        p["axis_ratio"] = draw(_ratio())
+        p["angle"] = draw(_angle())
         p["major_axis_radius"] = draw(_radius(shape, scales, centre, p["axis_ratio"], p["angle"]))
     else:
-        p["inner_axis_ratio"] = float(draw(_RATIOS))
-        p["inner_phi"] = float(draw(_ANGLES))
-        p["outer_axis_ratio"] = float(draw(_RATIOS))
-        p["outer_phi"] = float(draw(_ANGLES))
-        ri = draw(_radius(shape, scales, centre, p["inner_axis_ratio"], p["inner_phi"]))
+        # every combination of {angles equal, axis ratios equal, major radii equal} is an explicit class
+        same_phi = draw(st.integers(0, 4)) < 2
+        same_q = draw(st.integers(0, 4)) < 2
+        same_r = draw(st.integers(0, 3)) == 0
+        p["inner_axis_ratio"] = draw(_ratio())
+        p["inner_phi"] = draw(_angle())
+        p["outer_axis_ratio"] = p["inner_axis_ratio"] if same_q else draw(_ratio())
+        p["outer_phi"] = p["inner_phi"] if same_phi else draw(_angle())
+        if not same_q and p["outer_axis_ratio"] == p["inner_axis_ratio"]:
+            p["outer_axis_ratio"] = 0.35 if p["inner_axis_ratio"] != 0.35 else 0.7
+        if not same_phi and p["outer_phi"] == p["inner_phi"]:
+            p["outer_phi"] = p["inner_phi"] + 20.0 if p["inner_phi"] <= 300.0 else p["inner_phi"] - 20.0
         ro = draw(_radius(shape, scales, centre, p["outer_axis_ratio"], p["outer_phi"]))
-        # inner ellipse mostly the smaller one, so that an annulus exists
-        if draw(st.integers(0, 3)) > 0:
-            ri = ri * draw(st.sampled_from([0.2, 0.4, 0.6]))
+        if same_r:
+            ri = ro
+        else:
+            ri = draw(_radius(shape, scales, centre, p["inner_axis_ratio"], p["inner_phi"]))
+            # inner ellipse mostly the smaller one, so that an annulus exists
+            if draw(st.integers(0, 3)) > 0:
+                ri = ri * draw(st.sampled_from([0.2, 0.4, 0.6]))
         p["inner_major_axis_radius"], p["outer_major_axis_radius"] = float(ri), float(ro)
     return {"kind": kind, "shape": shape, "scales": scales, "origin": origin, "centre": centre,
             "invert": invert, "params": p, "centre_kind": ck, "scalar_scale": scalar}
+
+
+def _equality_labels(case):
+    """Exact-equality classes of the constructor parameters (all decided with ==, never with a tolerance)."""
+    kind, p = case["kind"], case["params"]
+    out = []
+    angs = [p[k] for k in ("angle", "inner_phi", "outer_phi") if k in p]
+    qs = [p[k] for k in ("axis_ratio", "inner_axis_ratio", "outer_axis_ratio") if k in p]
+    for a in angs:
+        if a % 90.0 == 0.0:
+            out.append("eq:angle-multiple-of-90")
+        for v in (0.0, 90.0, 180.0, 360.0):
+            if abs(a) == v:
+                out.append("eq:|angle|==%d" % int(v))
+    if any(q == 1.0 for q in qs):
+        out.append("eq:axis_ratio==1")
+    if qs and all(q == 1.0 for q in qs):
+        out.append("eq:all-axis-ratios==1")
+    if kind == "circular_annular" and p["inner_radius"] == p["outer_radius"]:
+        out.append("eq:inner_radius==outer_radius")
+    if kind == "circular_anti_annular":
+        if p["inner_radius"] == p["outer_radius"]:
+            out.append("eq:inner_radius==outer_radius")
+        if p["outer_radius"] == p["outer_radius_2"]:
+            out.append("eq:outer_radius==outer_radius_2")
+    if kind == "elliptical_annular":
+        sp = p["inner_phi"] == p["outer_phi"]
+        sq = p["inner_axis_ratio"] == p["outer_axis_ratio"]
+        sr = p["inner_major_axis_radius"] == p["outer_major_axis_radius"]
+        out.append("eq:ell-annular:phi-%s,ratio-%s" % ("equal" if sp else "differ", "equal" if sq else "differ"))
+        if sr:
+            out.append("eq:inner_major_radius==outer_major_radius")
+        if sp and sq and sr:
+            out.append("eq:ell-annular:identical-ellipses")
+    if any(v == 0.0 for k, v in p.items() if "radius" in k):
+        out.append("eq:radius==0")
+    # centre exactly on a pixel centre / pixel corner in the oracle's arithmetic
+    dy, dx = ref.offsets(case["shape"], case["scales"], case["centre"])
+    if np.any((dy == 0.0) & (dx == 0.0)):
+        out.append("eq:centre-exactly-on-pixel-centre")
+    sy, sx = float(case["scales"][0]), float(case["scales"][1])
+    if np.any((np.abs(dy) == sy / 2.0) & (np.abs(dx) == sx / 2.0)):
+        out.append("eq:centre-exactly-on-pixel-corner")
+    return out
 
 
 def _construct(aa, case):
@@ -474,6 +757,9 @@ def body_masks(case, ctx):
         if any(q < 0.999 for q in qs):
             ctx.label("ellipse:flattened")
 
+    for l in _equality_labels(case):
+        ctx.label(l)
+
     mask = _construct(aa, case)
     got_masked = np.asarray(mask, dtype=bool)
     ctx.check(got_masked.shape == (h, w), "mask/%s/shape" % kind, "mask shape %s want %s" % (got_masked.shape, (h, w)))
@@ -486,6 +772,8 @@ def body_masks(case, ctx):
 
     want_un, tie = ref.shape_unmasked(kind, case["params"], (h, w), scales, centre, band=BAND)
     ctx.tie(int(tie.sum()))
+    if tie.any():
+        ctx.label("eq:threshold-exactly-on-a-pixel-radius(tie-band)")
     got_un = got_masked if invert else ~got_masked      # invert=True: documented region becomes the masked one
     cmp = ~tie
     ctx.nt(bool(got_masked.any() and (~got_masked).any()))
@@ -506,11 +794,13 @@ def body_masks(case, ctx):
 
 
 SUBCHECKS = [
-    SubCheck("geometry2d", body_geometry2d, strategy=geometry2d(), examples={"quick": 3000, "thorough": 32000},
-             shards={"quick": 6, "thorough": 16}),
-    SubCheck("enum_shapes", body_enum_shapes, cases=cases_enum_shapes, shards={"quick": 4, "thorough": 16}),
-    SubCheck("geometry1d", body_geometry1d, strategy=geometry1d(), examples={"quick": 1000, "thorough": 12000},
+    SubCheck("geometry2d", body_geometry2d, strategy=geometry2d(), examples={"quick": 2500, "thorough": 32000},
+             shards={"quick": 5, "thorough": 16}),
+    SubCheck("enum_shapes", body_enum_shapes, cases=cases_enum_shapes, shards={"quick": 2, "thorough": 16}),
+    SubCheck("geometry1d", body_geometry1d, strategy=geometry1d(), examples={"quick": 500, "thorough": 12000},
              shards={"quick": 1, "thorough": 4}),
-    SubCheck("masks", body_masks, strategy=mask_cases(), examples={"quick": 6000, "thorough": 80000},
+    SubCheck("huge_frames", body_huge, strategy=huge_cases(), examples={"quick": 2100, "thorough": 24000},
+             shards={"quick": 3, "thorough": 8}),
+    SubCheck("masks", body_masks, strategy=mask_cases(), examples={"quick": 5000, "thorough": 80000},
              shards={"quick": 5, "thorough": 16}),
 ]
